@@ -69,9 +69,9 @@ def h_dest(ctx, N, mode, imm, prefix="none", limits=2, pdu_dt=True):
 
 SRC_STATE = {ACK: ["SM", "TICK", "NAK", "ACKEOF", "FIN", "KA", "CANCEL"],
              UNACK: ["SM", "TICK", "FIN", "CANCEL"]}
-SRC_LAST = ["PUT", "CANCEL_OTHER", "WRONGSEQ", "WRONGSRC", "WRONGDST", "WRONGDIR", "FOREIGN_MD",
+SRC_LAST = ["PUT", "CANCEL_OTHER", "WRONGSEQ", "WRONGSEQLOW", "WRONGSRC", "WRONGDST", "WRONGDIR", "FOREIGN_MD",
             "FOREIGN_EOF", "FOREIGN_PROMPT", "FOREIGN_FD", "FOREIGN_ACKFIN", "NAK", "KA", "ACKEOF"]
-SRC_MUST_REJECT = {"WRONGSEQ", "WRONGSRC", "WRONGDST", "WRONGDIR", "FOREIGN_MD", "FOREIGN_EOF",
+SRC_MUST_REJECT = {"WRONGSEQ", "WRONGSEQLOW", "WRONGSRC", "WRONGDST", "WRONGDIR", "FOREIGN_MD", "FOREIGN_EOF",
                    "FOREIGN_PROMPT", "FOREIGN_FD", "FOREIGN_ACKFIN"}
 
 
